@@ -48,7 +48,17 @@ func scenario(cfg hlib.ChanCfg, lay layout, closer string, bound int) *explore.S
 // does not return) until an environment goroutine releases it after `stall` of
 // virtual time - within the documented grace period of bounded-wait channels.
 func scenarioStall(cfg hlib.ChanCfg, lay layout, closer string, bound int, stall time.Duration) *explore.Scenario {
+	return scenarioFull(cfg, hlib.Wrap{}, lay, closer, bound, stall)
+}
+
+// scenarioFull: with a non-zero wrap the channel runs over one of the library's buffering transport
+// wrappers and the mock plays the raw connection (what reaches it is on the wire). The write-only
+// wrapper's Close does not flush: anything the channel left in its buffer is lost.
+func scenarioFull(cfg hlib.ChanCfg, wrap hlib.Wrap, lay layout, closer string, bound int, stall time.Duration) *explore.Scenario {
 	name := fmt.Sprintf("%s/%s/close=%s", cfg, lay.name, closer)
+	if wrap != (hlib.Wrap{}) {
+		name = fmt.Sprintf("%s+%s/%s/close=%s", cfg, wrap, lay.name, closer)
+	}
 	if stall > 0 {
 		name += fmt.Sprintf("/stall=%v", stall)
 	}
@@ -62,14 +72,14 @@ func scenarioStall(cfg hlib.ChanCfg, lay layout, closer string, bound int, stall
 			var cancelParent func()
 			switch closer {
 			case "handler":
-				o.env = hlib.NewEnv(cfg, nil, &closeOnRead{})
+				o.env = hlib.NewEnvWrap(cfg, wrap, nil, &closeOnRead{})
 			case "user-after-parent-cancel":
 				// the channel's parent context (e.g. the bootstrap's) is cancelled first, as Shutdown does
 				var parent context.Context
 				parent, cancelParent = vcontext.WithCancel(context.Background())
-				o.env = hlib.NewEnv(cfg, parent)
+				o.env = hlib.NewEnvWrap(cfg, wrap, parent)
 			default:
-				o.env = hlib.NewEnv(cfg, nil)
+				o.env = hlib.NewEnvWrap(cfg, wrap, nil)
 			}
 			if stall > 0 {
 				o.env.T.Stalled = true
@@ -203,6 +213,16 @@ func build(tier string) []*explore.Scenario {
 					s.Cache = true
 					scs = append(scs, s)
 				}
+			}
+		}
+	}
+	// over the library's buffering wrappers
+	for _, cfg := range []hlib.ChanCfg{{Q: 2, Until: true}, {Q: 3, Until: false}, {Q: 0}} {
+		for _, wrap := range []hlib.Wrap{{0, 8}, {16, 16}} {
+			for _, closer := range []string{"user", "handler"} {
+				s := scenarioFull(cfg, wrap, lays[1], closer, bound-1, 0)
+				s.Cache = true
+				scs = append(scs, s)
 			}
 		}
 	}
